@@ -300,14 +300,19 @@ def judge_weights(sc, counts, n_draws):
 
 def main(eng):
     tier = eng.tier
+    budget = eng.budget_s or RUNS["thorough_s"]
     if tier == "thorough":
-        eng.search_for(eng.budget_s or RUNS["thorough_s"], 32000)
+        eng.search_for(0.7 * budget, 32000)
     else:
         eng.search(RUNS["quick"])
     calls = DIST_CALLS[tier]
     wt = []
-    for tag, sc in weight_scenarios(eng.seed, tier):
-        counts = eng.distribution(sc, calls, tag, chunk=max(25, calls // 32))
+    ws = weight_scenarios(eng.seed, tier)
+    for tag, sc in ws:
+        if tier == "thorough":
+            counts, calls = eng.distribution_timed(sc, tag, 0.3 * budget / len(ws), 2000, 2000, 200000, chunk=125)
+        else:
+            counts = eng.distribution(sc, calls, tag, chunk=max(25, calls // 32))
         n_draws = calls * DRAWS_PER_CALL
         viol = judge_weights(sc, counts, n_draws)
         wt.append({"scenario_tag": tag, "keys": sc["keys"], "weights": sc["weights"], "draws": n_draws,
